@@ -1,0 +1,45 @@
+//go:build verif
+
+package api
+
+// Contracts for the deductive verifier in /verif (govc). Comment-only; compiled only with -tags verif.
+//
+// Data-structure invariant of the v2 port router: no exact route is matched by a registered prefix and no
+// registered prefix is a prefix of another one. Under it a port matches at most one entry, so the result of
+// getRoute does not depend on Go's map iteration order (modelled as an arbitrary enumeration, mapseq<k>).
+
+//@ spec func routerInv(r *Router) bool = r.routes != nil && r.prefixRoutes != nil && r.routes != r.prefixRoutes && (forall a string, p string :: inmap(r.routes, a) && inmap(r.prefixRoutes, p) ==> !hasPrefix(a, p)) && (forall p string, q string :: inmap(r.prefixRoutes, p) && inmap(r.prefixRoutes, q) && p != q ==> !hasPrefix(p, q))
+
+//@ contract NewRouter
+//@   ensures routerInv(result)
+//@   ensures forall a string :: !inmap(result.routes, a) && !inmap(result.prefixRoutes, a)
+
+//@ contract (*Router).getRoute
+//@   requires routerInv(rtr)
+//@   invariant #1 visited_no_match: forall j int :: 0 <= j && j < mappos1 ==> !hasPrefix(portID, mapseq1[j])
+//@   ensures exact: inmap(rtr.routes, portID) ==> result1 && result0 == rtr.routes[portID]
+//@   ensures prefix_found: !inmap(rtr.routes, portID) ==> (result1 <==> exists p string :: inmap(rtr.prefixRoutes, p) && hasPrefix(portID, p))
+//@   ensures prefix_unique: forall p string :: !inmap(rtr.routes, portID) && inmap(rtr.prefixRoutes, p) && hasPrefix(portID, p) ==> result0 == rtr.prefixRoutes[p]
+//@   ensures none: !result1 ==> isNil(result0)
+
+//@ contract (*Router).AddRoute
+//@   requires routerInv(rtr)
+//@   invariant #1 visited_no_match: forall j int :: 0 <= j && j < mappos1 ==> !hasPrefix(portID, mapseq1[j])
+//@   modifies *rtr.routes
+//@   ensures inv: routerInv(rtr)
+//@   ensures added: inmap(rtr.routes, portID) && rtr.routes[portID] == cbs && !old(inmap(rtr.routes, portID))
+//@   ensures frame: forall a string :: a != portID ==> (inmap(rtr.routes, a) == old(inmap(rtr.routes, a)) && rtr.routes[a] == old(rtr.routes[a]))
+//@   ensures result == rtr
+
+//@ contract (*Router).AddPrefixRoute
+//@   requires routerInv(rtr)
+//@   invariant #1 routes_ok: forall j int :: 0 <= j && j < mappos1 ==> !hasPrefix(mapseq1[j], portIDPrefix)
+//@   invariant #2 prefixes_ok: forall j int :: 0 <= j && j < mappos2 ==> !hasPrefix(portIDPrefix, mapseq2[j]) && !hasPrefix(mapseq2[j], portIDPrefix)
+//@   modifies *rtr.prefixRoutes
+//@   ensures inv: routerInv(rtr)
+//@   ensures added: inmap(rtr.prefixRoutes, portIDPrefix) && rtr.prefixRoutes[portIDPrefix] == cbs
+//@   ensures frame: forall a string :: a != portIDPrefix ==> (inmap(rtr.prefixRoutes, a) == old(inmap(rtr.prefixRoutes, a)) && rtr.prefixRoutes[a] == old(rtr.prefixRoutes[a]))
+
+//@ contract (*Router).HasRoute
+//@   requires routerInv(rtr)
+//@   ensures result <==> (inmap(rtr.routes, portID) || exists p string :: inmap(rtr.prefixRoutes, p) && hasPrefix(portID, p))
